@@ -2346,6 +2346,9 @@ evdns_server_request_add_reply(struct evdns_server_request *req_, int section, c
 	EVDNS_LOCK(req->port);
 	if (req->response) /* have we already answered? */
 		goto done;
+	/* RDLENGTH is a 16-bit field */
+	if (data && !is_name && (datalen < 0 || datalen > 65535))
+		goto done;
 
 	switch (section) {
 	case EVDNS_ANSWER_SECTION:
